@@ -46,7 +46,9 @@ SPEC = {
     'lifted control flow is compared with Python control flow on the domain where JAX can trace it: every branch traces without error and with one tree structure; the loop body preserves the carry structure (documented in lift.cond / lift.while_loop)',
     'one scope per transformed module (no Module or Variable passed as attribute or argument)',
   ],
-  'model_partial': [],
+  'model_partial': [
+    'counter_delta_restore_partial: proved for a single rng stream (the recorded delta replayed on a cache hit restores the counters); the statement for arbitrary counter dicts (all streams, keys added while tracing) is not proved — tied by the call-history correspondence (keys drawn after a cache-hit call)',
+  ],
 }
 
 MUTABLE_INIT = {'deny': 'intermediates'}
@@ -320,9 +322,6 @@ def check_id_case(ctx, drv, case):
     obs[which]['runs'] = len(log)
   sk = seeds_keys(case)
   suffix = list(case['suffix'])
-  if case['placement'] == 'autochild':
-    # the auto-generated name of a transformed class differs from the plain one: learnt from the implementation
-    pass
   t = case['transform']
   cmod = dict(case, mutable=mutable, view=view)
   if case['placement'] == 'autochild':
@@ -351,7 +350,7 @@ def check_id_case(ctx, drv, case):
   ctx.count('style', case['style'] + '/' + case['placement'])
   ctx.count('plain_outcome', obs['plain'].get('error', 'ok'))
   ctx.count('lifted_outcome', obs['lifted'].get('error', 'ok'))
-  cov = covered_mapvars(case) if t == 'mapvars' else covered(case)
+  cov = covered_mapvars(cmod) if t == 'mapvars' else covered(cmod)  # `cmod`: the mutability actually in force (init)
   ctx.count('covered_by_filters', cov)
   ctx.count('n_instr', len(case['fn']['body']))
 
@@ -379,12 +378,10 @@ def check_id_case(ctx, drv, case):
   else:
     # not covered: the transform is *meant* to hide / protect collections.  What the property promises is the frame:
     if 'error' not in li:
-      for c in nonlifted_cols(case):
+      for c in nonlifted_cols(cmod):
         if li['view'].get(c) != view.get(c):
           ctx.violation(f'{tag}-nonlifted-collection-changed', f'{t}: collection {c!r} is not lifted-and-mutable but changed from {view.get(c)} to {li["view"].get(c)} on {json.dumps(case)[:600]}', case)
           return
-      if li.get('siblings') != lp.canon_view({c: {n: v} for c, n, v in sib} if sib else {}) and sib:
-        pass
   if 'error' not in li and sib:
     want = {}
     for c, n, v in sib:
@@ -902,7 +899,8 @@ def gen_ctrl_case(rng, kind):
     else:
       case['carry'] = rng.choice([cc, lp.gen_filter(rng), False])
       case['broadcast'] = rng.choice([True, lp.gen_filter(rng)])
-      body = lp.gen_fn(rng, view, len(args), attrs, allow_rng=False, existing_only=rng.random() < 0.6, nret=len(args), n_instr=rng.randrange(0, 4))
+      # no `decl` in a loop body: Module.variable reserves the name, a second Python iteration raises NameInUseError
+      body = lp.gen_fn(rng, view, len(args), attrs, allow_rng=False, allow_decl=False, existing_only=rng.random() < 0.6, nret=len(args), n_instr=rng.randrange(0, 4))
     # the random part must not touch the loop counter; the last carried value counts iterations and caps the loop
     # (a lifted loop that never terminates would hang inside XLA)
     body['body'] = [ins for ins in body['body'] if not (ins[0] in ('put', 'decl') and ins[1] == cc and ins[2] == 'n')]
@@ -1064,7 +1062,7 @@ def run(ctx):
     ctx.corpus_replayed += 1
     run_case(ctx, drv, obj.get('case', obj))
   scale = 12 if thorough else 1
-  plan = [('remat', 34), ('mapvars', 30), ('jit', 22), ('history', 26), ('cond', 30), ('switch', 26), ('while', 26), ('autoname', 10)]
+  plan = [('remat', 50), ('mapvars', 46), ('jit', 34), ('history', 40), ('cond', 44), ('switch', 38), ('while', 38), ('autoname', 14)]
   cases = []
   for what, n in plan:
     for _ in range(n * scale):
